@@ -78,6 +78,9 @@ type Env struct {
 	base     []uint64         // C15: observation digests of the scribble-free execution
 	dry      bool             // C15: scribble steps select their slice but do not write
 	rq       map[int][][]byte // per task: candidate queues of delivered, unused entropy
+	wide     bool             // a read request larger than one block has been seen (buffering implementation)
+	pool     bool             // C18, several callers: judged by the pool rule
+	randHist []*big.Int       // every value Random has returned in this run
 	protect0 uint64
 	poisoned bool
 	schedIDs []int // scheduler task index -> task id of the current scheduled phase
@@ -813,10 +816,9 @@ func (x *Env) scanBlocks(q []byte, count bool) (v *big.Int, used int, ok bool) {
 // afterRandom judges one call of Random against the specification, stated over
 // the bytes the source delivered:
 //
-//   - every value returned is the first 32-byte block with non-zero residue of
-//     the bytes delivered and not yet used (to this task; or, for an
-//     implementation that shares a buffer between callers, to another task),
-//     reduced mod n, and using it consumes it;
+//   - every value returned is in [1, n-1], canonical, and is the first 32-byte
+//     block with non-zero residue of the bytes delivered to this task and not
+//     yet used, reduced mod n; using it consumes it;
 //   - if the source reports an error at a moment when no such block is
 //     available, the call must panic - except for an error delivered together
 //     with the bytes that complete a 32-byte block, which a block-wise reader
@@ -826,6 +828,14 @@ func (x *Env) scanBlocks(q []byte, count bool) (v *big.Int, used int, ok bool) {
 //     kept or dropped (both are followed); the partial block that was being
 //     assembled when the source failed is dropped: a later value must not be
 //     built from the remains of a failed draw.
+//
+// With several callers and an implementation that shares buffered entropy
+// between them, which caller is handed which block is not determined by the
+// reads each made. When the per-task rules fail in such a run (a read request
+// larger than one block has been seen, or a value was returned by a call that
+// was served nothing), the run is judged by the pool rule instead: every value
+// returned so far must be matched, one to one, by a 32-byte aligned block with
+// that residue among the bytes delivered to any task.
 func (x *Env) afterRandom(ts *taskState, oi int, op *Op, rdStart int, out implOut) {
 	r := op.R
 	if x.rq == nil {
@@ -849,6 +859,7 @@ func (x *Env) afterRandom(ts *taskState, oi int, op *Op, rdStart int, out implOu
 		}
 		x.St.EntropyRd++
 		if rec.Want > 32 {
+			x.wide = true
 			x.St.Probes["random_read_request_larger_than_one_block"]++
 		}
 		delivered = append(delivered, rec.Data...)
@@ -873,12 +884,33 @@ func (x *Env) afterRandom(ts *taskState, oi int, op *Op, rdStart int, out implOu
 			x.fail(ts, oi, op, "M-entropy", "range", fmt.Sprintf("Random left the non-canonical or zero value %x", enc))
 			return
 		}
+		x.randHist = append(x.randHist, got)
 	}
 	if x.R.Prop != "C18" {
 		x.St.PanicOps++
 		ts.MS[r] = nil
 		x.resyncScalar(ts, oi, op, r)
 		x.observe(ts, oi, op, -1, -1)
+		return
+	}
+	accept := func() {
+		if out.panicked {
+			x.St.PanicOps++
+			ts.MS[r] = nil // receiver unspecified after a panic
+			x.resyncScalar(ts, oi, op, r)
+			x.observe(ts, oi, op, -1, -1)
+			return
+		}
+		ts.MS[r] = got
+		x.St.StateOps++
+		x.observe(ts, oi, op, r, 0)
+	}
+	if x.pool {
+		if why := x.poolJudge(out.panicked, len(errs) > 0, out.pval); why != "" {
+			x.fail(ts, oi, op, "M-entropy", "pool", why)
+			return
+		}
+		accept()
 		return
 	}
 	var next [][]byte
@@ -938,24 +970,17 @@ func (x *Env) afterRandom(ts *taskState, oi int, op *Op, rdStart int, out implOu
 		}
 		next = append(next, full[used:])
 	}
-	if len(next) == 0 && !out.panicked && len(errs) == 0 {
-		// an implementation that shares buffered entropy between callers may
-		// serve this call from bytes delivered to another task
-	search:
-		for tid, oalts := range x.rq {
-			if tid == ts.id {
-				continue
-			}
-			for ai, q := range oalts {
-				if v, used, ok := x.scanBlocks(q, false); ok && v.Cmp(got) == 0 {
-					oalts[ai] = q[used:]
-					x.rq[tid] = [][]byte{oalts[ai]}
-					next = alts
-					x.St.Probes["random_served_from_bytes_delivered_to_another_task"]++
-					break search
-				}
-			}
+	if len(next) == 0 && len(x.R.Tasks) > 1 && (x.wide || (!out.panicked && len(delivered) == 0)) {
+		// several callers over an implementation that buffers entropy: judge the
+		// whole run so far by the pool rule, and stay with it
+		x.pool = true
+		x.St.Probes["random_judged_by_pool_rule"]++
+		if pw := x.poolJudge(out.panicked, len(errs) > 0, out.pval); pw != "" {
+			x.fail(ts, oi, op, "M-entropy", "pool", pw)
+			return
 		}
+		accept()
+		return
 	}
 	if len(next) == 0 {
 		x.fail(ts, oi, op, "M-entropy", "value", why)
@@ -966,16 +991,61 @@ func (x *Env) afterRandom(ts *taskState, oi int, op *Op, rdStart int, out implOu
 		next = next[:4]
 	}
 	x.rq[ts.id] = next
-	if out.panicked {
-		x.St.PanicOps++
-		ts.MS[r] = nil // receiver unspecified after a panic
-		x.resyncScalar(ts, oi, op, r)
-		x.observe(ts, oi, op, -1, -1)
-		return
+	accept()
+}
+
+// poolJudge applies the pool rule to everything Random has returned in this
+// run: each value needs its own 32-byte aligned block, with that residue, among
+// the bytes delivered to any one task. It returns "" or the complaint.
+func (x *Env) poolJudge(panicked, sawErr bool, pval any) string {
+	if panicked && !sawErr {
+		return fmt.Sprintf("Random panicked (%v) although the source reported no failure to this caller", pval)
 	}
-	ts.MS[r] = got
-	x.St.StateOps++
-	x.observe(ts, oi, op, r, 0)
+	// the bytes delivered to each task, cut into segments at every source
+	// error (what was being assembled when the source failed is dropped, so
+	// block alignment starts afresh after a failure)
+	per := map[int][][]byte{}
+	var order []int
+	for _, rec := range x.Dev.Log {
+		segs, ok := per[rec.Task]
+		if !ok {
+			order = append(order, rec.Task)
+			segs = [][]byte{nil}
+		}
+		segs[len(segs)-1] = append(segs[len(segs)-1], rec.Data...)
+		if rec.Err != nil {
+			segs = append(segs, nil)
+		}
+		per[rec.Task] = segs
+	}
+	type blk struct {
+		v    *big.Int
+		used bool
+	}
+	var pool []*blk
+	for _, t := range order {
+		for _, d := range per[t] {
+			for off := 0; off+32 <= len(d); off += 32 {
+				v := new(big.Int).SetBytes(d[off : off+32])
+				if v.Mod(v, model.N); v.Sign() != 0 {
+					pool = append(pool, &blk{v: v})
+				}
+			}
+		}
+	}
+	for _, g := range x.randHist {
+		found := false
+		for _, b := range pool {
+			if !b.used && b.v.Cmp(g) == 0 {
+				b.used, found = true, true
+				break
+			}
+		}
+		if !found {
+			return fmt.Sprintf("Random returned %x, which is not the residue of any unused 32-byte block among the bytes the source delivered", g)
+		}
+	}
+	return ""
 }
 
 func (x *Env) scribble(ts *taskState, oi int, op *Op) {
@@ -1445,7 +1515,7 @@ func Exec(run *Run, ar *arena.Arena, va *arena.Vars, g *Globals, sites *SiteTabl
 		run.Entropy.Stream = s
 	}
 	newDev := func() {
-		x.rq = nil
+		x.rq, x.wide, x.pool, x.randHist = nil, false, false, nil
 		x.Dev = entropy.NewDevice(run.Entropy)
 		x.Dev.Cur = func() int {
 			if x.Sch != nil && x.Sch.Active() {
@@ -1770,7 +1840,7 @@ func Exec(run *Run, ar *arena.Arena, va *arena.Vars, g *Globals, sites *SiteTabl
 			if pb == nil {
 				pb = []entropy.Rec{}
 			}
-			x.rq = nil
+			x.rq, x.wide, x.pool, x.randHist = nil, false, false, nil
 			x.Dev = entropy.NewDevice(entropy.Script{Playback: pb})
 			tid := ti
 			x.Dev.Cur = func() int { return tid }
